@@ -1083,3 +1083,59 @@ Example C06_splice_agreement_remove_inhabited :
 Proof.
   split; [|split]; eexists; (split; [vm_compute; reflexivity|]); repeat split; vm_compute; reflexivity.
 Qed.
+
+(* 23. (a) state-level path agreement on EVERY non-opaque layout - authority, '/'-led path without authority, '/.' marker -
+   in one statement (C06_parser_agreement_set_path is the authority case): the record set_path returns is with_path u P
+   (the old record with P in the path position and the offsets behind it shifted; Proofs/C06_Path.v), and the parser's
+   path-start state in context UrlParser on p X behind the old front writes exactly P and hands X on.  Premise
+   byte_eqb (ser u) (scheme_end u + 1) 47: the path is not opaque.  (On the authority-less layouts with_path u P is
+   well-formed exactly as C06_frame_path_noauth / _marker say.)
+   (b) the exclusions of section 19 are exact: on "a://h:80/p?q#f" a set_path argument that is not '/'-led ("x"), one with
+   a '?' ("/a?b"), a set_host argument with a port part ("x:81") and the empty host on a URL with a port (F-C02-4) each
+   give a successful setter call whose record Parser::parse_url on the spliced text does NOT return. *)
+From RU Require Import Proofs.C06_SpliceMore.
+
+Theorem C06_parser_agreement_set_path_layouts : forall dbg u p u', wf_b u = true ->
+  byte_eqb (ser u) (scheme_end u + 1) 47 = true -> usv_list p -> auth_end_ok u ->
+  forallb no_qh p = true -> match p with c :: _ => is_tnl c = false | [] => True end ->
+  set_path dbg u p = Some u' ->
+  exists P, u' = with_path u P /\ new_path_ok P
+    /\ forall X, C06_Agree.qh_tail X ->
+         exists hh, parse_path_start dbg CUrlParser (stype u) true (nfirstn (path_start u) (ser u)) (p ++ X)
+                    = POk (nfirstn (path_start u) (ser u) ++ P, hh, X).
+Proof. exact agree_path_layouts. Qed.
+Check C06_parser_agreement_set_path_layouts : forall dbg u p u', wf_b u = true ->
+  byte_eqb (ser u) (scheme_end u + 1) 47 = true -> usv_list p -> auth_end_ok u ->
+  forallb no_qh p = true -> match p with c :: _ => is_tnl c = false | [] => True end ->
+  set_path dbg u p = Some u' ->
+  exists P, u' = with_path u P /\ new_path_ok P
+    /\ forall X, C06_Agree.qh_tail X ->
+         exists hh, parse_path_start dbg CUrlParser (stype u) true (nfirstn (path_start u) (ser u)) (p ++ X)
+                    = POk (nfirstn (path_start u) (ser u) ++ P, hh, X).
+Print Assumptions C06_parser_agreement_set_path_layouts.
+
+(* the premises are met on the authority-less "a:/p" (sp_w1) and the marker URL "a:/.//p" (mk_w) *)
+Example C06_parser_agreement_set_path_layouts_inhabited :
+  wf_b sp_w1 = true /\ has_authority_b sp_w1 = false /\ byte_eqb (ser sp_w1) (scheme_end sp_w1 + 1) 47 = true /\ auth_end_ok sp_w1
+  /\ (exists u', set_path true sp_w1 (B "/x y") = Some u' /\ ser u' = B "a:/x%20y")
+  /\ wf_b mk_w = true /\ byte_eqb (ser mk_w) (scheme_end mk_w + 1) 47 = true /\ auth_end_ok mk_w
+  /\ (exists u', set_path true mk_w (B "//q") = Some u' /\ ser u' = B "a:/.//q").
+Proof.
+  split; [vm_compute; reflexivity|]. split; [vm_compute; reflexivity|]. split; [vm_compute; reflexivity|].
+  split; [intros H; vm_compute in H; discriminate H|].
+  split; [eexists; split; vm_compute; reflexivity|].
+  split; [vm_compute; reflexivity|]. split; [vm_compute; reflexivity|].
+  split; [intros H; vm_compute in H; discriminate H|].
+  eexists; split; vm_compute; reflexivity.
+Qed.
+
+Theorem C06_splice_exclusions_refuted :
+  Canon ex_hp ex_hp ex_hd qx_u /\ has_authority_b qx_u = true
+  /\ parse_differs (set_path true qx_u (B "x")) (splice_path qx_u (B "x")) /\ ~ path_arg_ok (B "x")
+  /\ parse_differs (set_path true qx_u (B "/a?b")) (splice_path qx_u (B "/a?b")) /\ forallb no_qh (B "/a?b") = false
+  /\ parse_differs (ok_of (set_host true ex_hp ex_hp ex_hd qx_u (Some (B "x:81")))) (splice_host qx_u (B "x:81"))
+  /\ forallb (hostarg (sp_of qx_u)) (B "x:81") = false
+  /\ parse_differs (ok_of (set_host true ex_hp ex_hp ex_hd qx_u (Some []))) (splice_host qx_u [])
+  /\ (exists u', set_host true ex_hp ex_hp ex_hd qx_u (Some []) = Some (u', SOk) /\ ~ empty_host_ok qx_u u').
+Proof. exact splice_exclusions_refuted. Qed.
+Print Assumptions C06_splice_exclusions_refuted.
